@@ -18,7 +18,10 @@ CFG = dict(
     corr_name='Model/StoreSchema.v (+ Gen/SchemaMatches.v) vs schema declaration / validation / storing paths',
     rule='corpus (update with non-conforming insert half, declaration over non-conforming data, re-declaration narrower than data, mixed batch) + '
          'exhaustive matrix 11 declared types x 11 values (incl. Null, both int widths, timestamp, f32/int8 vectors of 2 dimensions) x 3 paths + '
-         'random histories of 3-10 steps on a binary relation: declaration via statement text or API (all types), +r[..] inserts, API '
+         'positional batches: for every declared type x every non-conforming value, a 3-tuple batch of conforming tuples with the offender '
+         '(a near miss where one exists: other vector length, other int width) at position first/middle/last through validate / session '
+         'insert / API insert / +r[..], plus the conforming batch + '
+         'random histories of 3-10 steps on a binary relation (a third of API-declared schemas get a vector(2|3) column; half of the deviations are near misses; batches of 1-4 tuples): declaration via statement text or API (all types), +r[..] inserts, API '
          'validate+insert with all value kinds, validate, session insert, updates (swap / constant / repeated variable templates), deletes, '
          're-declarations; 25% data-first, 8% with wrong-arity tuples. non-trivial = a schema is declared and a storing or validating step '
          'follows it; distinct by full op list',
